@@ -192,7 +192,17 @@ func unchanged(after, before *dns.Msg) bool { return reflect.DeepEqual(after, be
 func exec(op string) vlib.Res {
 	res := exec1(op)
 	if cur != nil && cur.skips && strings.HasPrefix(res.Oracle, "FAIL sig=") && !strings.HasPrefix(res.Oracle, "FAIL sig=harness/") {
-		res.Oracle = "FAIL sig=skipwrite/" + strings.TrimPrefix(res.Oracle, "FAIL sig=")
+		rest := strings.TrimPrefix(res.Oracle, "FAIL sig=")
+		if strings.HasPrefix(rest, "serve/sent-bytes-are-not-the-library-encoding/") {
+			// the owned transports' Msg path packs into a reused slab (udpJob/tcpJob.WriteMsg -> PackBuffer(j.tx)):
+			// the span the library skips goes out with the previous reply's bytes
+			i := strings.IndexByte(rest, ' ')
+			if i < 0 {
+				i = len(rest)
+			}
+			rest = "serve/transport-slab-bytes-sent" + rest[i:]
+		}
+		res.Oracle = "FAIL sig=skipwrite/" + rest
 	}
 	return res
 }
@@ -962,7 +972,7 @@ func flagsStr(v int) string {
 	return sb.String()
 }
 
-var profiles = []string{"plain", "plain", "types", "types", "optmix", "bad", "rcode", "names", "size", "size", "qcount", "zero", "hdr", "svcbopt", "bigopt", "cdn", "cdn", "manynames"}
+var profiles = []string{"plain", "plain", "types", "types", "optmix", "bad", "rcode", "names", "size", "size", "qcount", "zero", "hdr", "svcbopt", "bigopt", "cdn", "cdn", "manynames", "skipwrite"}
 
 func gen(r *vlib.R, n int, tier string, emit func(string)) {
 	count := 0
@@ -1141,6 +1151,7 @@ func facts() map[string]any {
 		"lib_sample_records":             lf[2],
 		"lib_sample_messages":            lf[3],
 		"lib_writesall_violations":       lf[4],
+		"admission_of_skipwriters":       admissionOfSkipWriters(),
 		"puts_after_ok":                  own["puts_after_ok"],
 		"puts_after_err":                 own["puts_after_err"],
 		"puts_after_panic":               own["puts_after_panic"],
